@@ -12,7 +12,8 @@ from __future__ import annotations
 from ..model import load_model
 from ..harness import partition, valuations
 from .. import spec
-from ..evalengine import (depth1_instances, depth2_instances, constant_child_instances, eval_case, pmap, param_class,
+from ..evalengine import (depth1_instances, depth2_instances, constant_child_instances, inspected_child_instances,
+                          wide_nary_instances, eval_case, pmap, param_class,
                           region_class)
 from ..structure import check_eager_evaluate
 
@@ -63,6 +64,11 @@ def check(rep):
         use = atoms if len(names) <= 2 else coarse
         for val in valuations(names, use):
             cases.append((tree, label, val))
+    from ..simpengine import SIGN_REGIONS
+    for tree, label in inspected_child_instances(model, tier) + wide_nary_instances(model, tier):
+        names = spec.variables(tree)
+        for val in valuations(names, coarse if len(names) <= 2 else SIGN_REGIONS):
+            cases.append((tree, label, val))
     for tree, label in inst2:
         names = spec.variables(tree)
         use = coarse if (tier == "quick" or len(names) > 2) else atoms
@@ -79,7 +85,8 @@ def check(rep):
         d[1] += 1 if ok else 0
     for label, (n, good) in sorted(per_class.items()):
         if n == good:
-            rep.ok("C02.node-outcome", label, model.cls(label.split("<")[0]).where,
+            cname = label.split("<")[0].split("(")[0].split("[")[0]
+            rep.ok("C02.node-outcome", label, model.cls(cname).where if cname in model.classes else "",
                    f"{n} region/parameter cases: outcome = documented domain", cases=n)
     for i in (0, len(cases) // 3, 2 * len(cases) // 3, len(cases) - 1):
         t, l, v = cases[i]
